@@ -922,6 +922,8 @@ class BlockNode(AstNode, NamespaceMixin):
         self.scope_file = parent.scope_file
         self.symbols = parent.symbols
         self.cxx_header = parent.cxx_header
+        # A block is transparent: it is the same kind of node as its parent.
+        self.nodename = parent.nodename
 
         self.options = util.Scope(parent=parent.options)
         if options:
